@@ -730,20 +730,23 @@ def gen_free(rng, cid):
 
     def iv():
         return rng.choice([0, 0, 0, 0, 5000, 10000, 20000, 50000])
+    n_initial = [0]
     for _ in range(rng.randint(4, 18)):
         i = iv()
         ops.append("A %d %d %d" % (fresh(i), delay() if i == 0 else i, i))
+        n_initial[0] += 1
     for _ in range(rng.randint(0, 8)):
         i = iv()
         ops.append("FA %d %d %d %d" % (fresh(i), min(delay(), 80000) if i == 0 else i, i, rng.randrange(0, 120000)))
     first = [t for (t, _) in tags]
+    loop_added = list(first[:n_initial[0]])      # a loop-thread cancel of a foreign add that may still be queued is C07-b
     for _ in range(rng.randint(0, 6)):
         i = iv()
         cb = rng.choice(first)
         ops.append("N %d %d %d %d" % (cb, fresh(i), rng.choice([-1000, 0, 100, 5000, 30000]) if i == 0 else i, i))
     for _ in range(rng.randint(0, 5)):
         cb = rng.choice(first)
-        ops.append("X %d %d" % (cb, rng.choice([cb, cb, rng.choice(first)])))
+        ops.append("X %d %d" % (cb, rng.choice([cb, cb, rng.choice(loop_added)]) if cb in loop_added else rng.choice(loop_added)))
     for _ in range(rng.randint(0, 6)):
         ops.append("FC %d %d" % (rng.choice(first), rng.randrange(0, 200000)))
     return vlib.Case(cid, "free %d %d" % (FREE_DURATION, FREE_TIMEOUT), ops, "free")
@@ -797,7 +800,11 @@ def free_oracle(case, lines):
         if a["iv"] > 0 and len(rs) > (t_quit - a["lo"]) // a["iv"] + 1:
             bad.append(("spacing", "repeater tag %d ran %d times in %d us with interval %d" % (tag, len(rs), t_quit - a["lo"], a["iv"])))
         c = cancelled.get(tag)
-        if c is not None:
+        if c is not None and c[2] == "L" and a["who"] == "F":
+            # a loop-thread cancel of a timer whose foreign add may still be queued: the recorded finding C07-b
+            # (cancel-queued-add; deterministic witness in corpus/C07); not decidable from a free-running trace
+            stats["cancel_of_possibly_queued_add"] = stats.get("cancel_of_possibly_queued_add", 0) + 1
+        elif c is not None:
             later = [(t, dl, p) for (t, dl, p) in rs if p > c[0]]
             allowed = 1 if c[2] == "L" else 0          # a same-batch cancel lets the invocation that was already due run
             late_ok = [x for x in later if x[1] >= 0 and x[1] <= c[1]]
